@@ -214,7 +214,18 @@ func (u *Unit) uncontracted(st *State, sig *types.Signature, key string, pos tok
 	pre := st.now
 	st.now = u.ctx.FreshConst("now", SInt)
 	u.assume(st, Ge(st.now, pre))
-	return u.freshResults(st, sig, key)
+	res := u.freshResults(st, sig, key)
+	// built-in ghost `lastCallError` (when a spec declares it): the error returned by
+	// the last call the unit made to code without a contract - a call through a
+	// function-typed field or variable has no name a contract could bind its result to
+	if g, ok := u.prog.specs.GhostVars["lastCallError"]; ok && sig.Results().Len() == 1 {
+		if t, isT := res.(*Term); isT {
+			if _, sort := u.resolveType(g.GoType, g.PkgPath); sort == t.Sort {
+				u.storeLoc(st, "G!lastCallError", sort, ghostPtr, t)
+			}
+		}
+	}
+	return res
 }
 
 // inline executes a closure / function body in place.
